@@ -98,20 +98,23 @@ def gcfg [Num α] (P : Params α) (tbl : List (Coord × CellData α)) : Grid.Cfg
       | some cd => P.enc (importance cd c.nbrs)
       | none => c.data }
 
-/-- `addMotion(motion, coord, dist)`; returns the number of cells created as well -/
-def add [Num α] [HasLog α] (P : Params α) (d : Disc α) (m : Nat) (x : Coord) (dist : α) : Disc α × Nat :=
+/-- `addMotion(motion, coord, dist)`; returns the number of cells created as well.  `w` is what a motion adds to the
+cell's coverage and `off` the offset in the initial score: `1.0` and `1.0` in `Discretization<Motion>`; `motion->steps`
+and `DISTANCE_TO_GOAL_OFFSET = 1e-3` in the copy of this code inside `control::KPIECE1` (`KPIECE1::addMotion`). -/
+def add [Num α] [HasLog α] (P : Params α) (d : Disc α) (m : Nat) (x : Coord) (dist : α)
+    (w : α := Num.ofNat 1) (off : α := Num.ofNat 1) : Disc α × Nat :=
   match lookup d.cdata x with
   | some cd =>
     if has d.grid.cells x then
-      let tbl := setData d.cdata x { cd with motions := cd.motions ++ [m], coverage := cd.coverage + Num.ofNat 1 }
+      let tbl := setData d.cdata x { cd with motions := cd.motions ++ [m], coverage := cd.coverage + w }
       ({ d with cdata := tbl, grid := Grid.step (gcfg P tbl) d.grid (.upd x 0), size := d.size + 1 }, 0)
     else (d, 0)   -- table and grid out of sync: unreachable (`DInv`)
   | none =>
     if has d.grid.cells x then (d, 0)   -- unreachable (`DInv`)
     else
       let cd : CellData α :=
-        { motions := [m], coverage := Num.ofNat 1, selections := 1,
-          score := (Num.ofNat 1 + HasLog.log (Num.ofNat d.iteration)) / (Num.ofNat 1 + dist),
+        { motions := [m], coverage := w, selections := 1,
+          score := (Num.ofNat 1 + HasLog.log (Num.ofNat d.iteration)) / (off + dist),
           iteration := d.iteration }
       let tbl := d.cdata ++ [(x, cd)]
       ({ d with cdata := tbl, grid := Grid.step (gcfg P tbl) d.grid (.new x 0), size := d.size + 1 }, 1)
@@ -202,6 +205,8 @@ def plannerData (d : Disc α) (parent : Nat → Option Nat) : Nat × Nat × Nat 
 
 inductive DOp (α : Type) where
   | add (m : Nat) (x : Coord) (dist : α)
+  /-- `control::KPIECE1::addMotion`: coverage weight `motion->steps`, score offset `DISTANCE_TO_GOAL_OFFSET` -/
+  | addW (m : Nat) (x : Coord) (dist : α) (w off : α)
   | select (u : α) (pick : Nat → Nat)
   | updScore (x : Coord) (s : α)
   | remove (m : Nat) (x : Coord)
@@ -211,6 +216,7 @@ inductive DOp (α : Type) where
 
 def dstep [Num α] [HasLog α] (P : Params α) (d : Disc α) : DOp α → Disc α
   | .add m x dist => (add P d m x dist).1
+  | .addW m x dist w off => (add P d m x dist w off).1
   | .select u pick => (select P d u pick).1
   | .updScore x s => updScore P d x s
   | .remove m x => (remove P d m x).1
